@@ -777,6 +777,13 @@ inclGetLine(FILE *file)
 		bufAdd1(inclBuffer, c);
 		if (c == '\n') break;
 	}
+	/*
+	 * The last line of a file need not end in a newline.  Give it one:
+	 * the scanner runs a line's text into the next line otherwise, and a
+	 * comment ending an included file swallows the includer's next line.
+	 */
+	if (c == EOF && bufPosition(inclBuffer) > 0)
+		bufAdd1(inclBuffer, '\n');
 	bufAdd1(inclBuffer, char0);
 
 	s = bufChars(inclBuffer);
